@@ -126,7 +126,7 @@ def get_current_url(
 
     if root_path is None:
         url.append("/")
-        return uri_to_iri("".join(url))
+        return _uri_to_iri("".join(url))
 
     # safe = https://url.spec.whatwg.org/#url-path-segment-string
     # as well as percent for things that are already quoted
@@ -134,7 +134,7 @@ def get_current_url(
     url.append("/")
 
     if path is None:
-        return uri_to_iri("".join(url))
+        return _uri_to_iri("".join(url))
 
     url.append(quote(path.lstrip("/"), safe="!$&'()*+,/:;=@%"))
 
@@ -142,7 +142,16 @@ def get_current_url(
         url.append("?")
         url.append(quote(query_string, safe="!$&'()*+,/:;=?@%"))
 
-    return uri_to_iri("".join(url))
+    return _uri_to_iri("".join(url))
+
+
+def _uri_to_iri(url: str) -> str:
+    # The host comes from the client and may not be valid, in which case
+    # the URL can't be split to be converted. Leave it as it is.
+    try:
+        return uri_to_iri(url)
+    except ValueError:
+        return url
 
 
 def get_content_length(
